@@ -15,7 +15,7 @@ def func_refs(node):
 
 
 class CallSite:
-    __slots__ = ('caller', 'node', 'targets', 'indirect', 'how')
+    __slots__ = ('caller', 'node', 'targets', 'indirect', 'how', 'callbacks')
 
     def __init__(self, caller, node, targets, indirect, how):
         self.caller = caller
@@ -23,6 +23,7 @@ class CallSite:
         self.targets = targets  # list of Function or 'ext:<name>'
         self.indirect = indirect
         self.how = how
+        self.callbacks = []     # program functions whose address is handed to an external callee
 
 
 class CallGraph:
@@ -228,6 +229,17 @@ class CallGraph:
                 if name:
                     tgt = self.prog.func(name, f.tu)
                     cs = CallSite(f, c, [tgt if tgt is not None else 'ext:' + name], False, 'direct')
+                    if tgt is None:
+                        # functions handed to an external callee (pthread_once, pthread_atfork,
+                        # qsort, ...) may be invoked by it
+                        for a in c.ch[1:]:
+                            sa = strip(a) if a is not None else None
+                            if sa is not None and sa.k == 'UnaryOperator' and sa['op'] == '&':
+                                sa = strip(sa.ch[0])
+                            if sa is not None and sa.k == 'DeclRefExpr' and sa['ref']['kind'] == 'func':
+                                cb = self.prog.func(sa['ref']['name'], f.tu)
+                                if cb is not None:
+                                    cs.callbacks.append(cb)
                 else:
                     t, how = self.resolve_indirect(f, c)
                     if t is None:
@@ -259,7 +271,7 @@ class CallGraph:
         while dq:
             f = dq.popleft()
             for cs in self.callees(f):
-                for t in cs.targets:
+                for t in list(cs.targets) + list(cs.callbacks):
                     if isinstance(t, str):
                         continue
                     if t.key not in seen:
